@@ -57,6 +57,17 @@ def c08 (toks : List String) : String :=
       let r := decompress ⟨w, h, bpp, c = "1", d.toArray⟩
       showBytesOut r ++ "\t" ++ specDecompress w h bpp (c = "1") d
     | _, _, _, _ => "bad-case"
+  | [_, bpp, hx, w1, h1, w2, h2] =>
+    -- `decomp2`: the same compressed data decoded twice in a row with two geometries: each result is its own
+    match bpp.toNat?, parsePayload hx, w1.toNat?, h1.toNat?, w2.toNat?, h2.toNat? with
+    | some bpp, some d, some w1, some h1, some w2, some h2 =>
+      let r1 := decompress ⟨w1, h1, bpp, true, d.toArray⟩
+      let r2 := decompress ⟨w2, h2, bpp, true, d.toArray⟩
+      let o1 := specDecompress w1 h1 bpp true d
+      let o2 := specDecompress w2 h2 bpp true d
+      let orc := if o1 = "-" ∨ o2 = "-" ∨ o1.startsWith "X:" ∨ o2.startsWith "X:" then "-" else o1 ++ "|" ++ o2
+      showBytesOut r1 ++ "|" ++ showBytesOut r2 ++ "\t" ++ orc
+    | _, _, _, _, _, _ => "bad-case"
   | _ => "bad-case"
 
 end Rdp.Driver
